@@ -45,7 +45,7 @@ var _ plugintypes.Operator = (*pm)(nil)
 func newPM(options plugintypes.OperatorOptions) (plugintypes.Operator, error) {
 	data := options.Arguments
 
-	data = strings.ToLower(data)
+	data = asciiToLower(data)
 	dict := strings.Split(data, " ")
 	builder := ahocorasick.NewAhoCorasickBuilder(ahocorasick.Opts{
 		AsciiCaseInsensitive: true,
@@ -72,6 +72,26 @@ func (o *pm) Evaluate(tx plugintypes.TransactionState, value string) bool {
 		return false
 	}
 	return pmEvaluate(o.matcher, tx, value)
+}
+
+// asciiToLower lower-cases the ASCII letters of s and leaves every other byte
+// untouched. The matcher folds ASCII only (AsciiCaseInsensitive), so phrases must
+// not go through strings.ToLower: it rewrites non-ASCII text ("É" becomes "é",
+// U+212A KELVIN SIGN becomes "k", a byte that is not UTF-8 becomes U+FFFD) and
+// such a phrase would no longer match its own text.
+func asciiToLower(s string) string {
+	for i := 0; i < len(s); i++ {
+		if c := s[i]; c >= 'A' && c <= 'Z' {
+			b := []byte(s)
+			for j := i; j < len(b); j++ {
+				if c := b[j]; c >= 'A' && c <= 'Z' {
+					b[j] = c + ('a' - 'A')
+				}
+			}
+			return string(b)
+		}
+	}
+	return s
 }
 
 // minPatternLen returns the length of the shortest pattern.
